@@ -9,13 +9,16 @@ mod engine;
 #[macro_use]
 mod gen;
 mod c01;
+mod c02;
+mod c07;
+mod c08;
 
 use std::path::PathBuf;
 
 use engine::*;
 
 fn properties() -> Vec<Property> {
-    vec![c01::property()]
+    vec![c01::property(), c02::property02(), c02::property03(), c07::property(), c08::property()]
 }
 
 fn main() {
